@@ -153,7 +153,10 @@ loop('PartHandler._on_received_new_part', 1, 'for c in self._received_part_callb
 ghost_after('PartHandler._pass_part_downstream', '<entry>', g_taken='-1')
 ghost_after('PartHandler._pass_part_downstream', 'self._output = None', g_taken='k')
 PASS_ACTIVE = 'old(operational(self) and self._output is not None)'
-contract('PartHandler._pass_part_downstream', props=['C02', 'C03', 'C08', 'C13'], for_cls=['PartHandler', 'PartProcessor'], args={},
+contract('PartHandler._pass_part_downstream', props=['C02', 'C03', 'C08', 'C13'],
+         for_cls=['PartHandler', 'PartProcessor', 'Source', 'PartBatcher'], args={}, modular=True, ghost_results={'g_taken': 'int'},
+         modifies=['self._output', 'self._waiting_for_downstream_space', 'self._waiting_for_part_since', 'self._cycle_time',
+                   'self._next_cycle_time_offset', '$trace'],
          requires={'initialised': 'self._env is not None and alive(self._env)', 'clock_nonneg': 'self._env._now >= 0',
                    'output_alive': 'self._output is None or alive(self._output)'},
          ensures={
@@ -177,6 +180,7 @@ contract('PartHandler._pass_part_downstream', props=['C02', 'C03', 'C08', 'C13']
                  '  all(trace_kind(old(trace_len()) + g_taken + 1 + j) == fn_id("space_available_downstream") and '
                  '      trace_recv(old(trace_len()) + g_taken + 1 + j) is self._upstream[j] for j in range(len(self._upstream))))',
              'C02/input_slot_untouched': 'self._part is old(self._part)',
+             'holder_settings_stay_valid': 'self._cycle_time >= 0',
          })
 loop('PartHandler._pass_part_downstream', 1, 'for dwn in self.get_sorted_downstream_list()',
      {'candidates_are_the_configured_downstreams':
